@@ -74,6 +74,10 @@ EXPLANATION += (
     ' Round 8: finalisers release the scratch directory they own on every normally returning path (R-PAIR/tempdir/finaliser).'
 )
 
+EXPLANATION += (
+    ' Round 9: where a stale output of an earlier run is removed, every normally returning path writes the output or removes what was there (R-FRESH/stale-output-removed).'
+)
+
 RULE_TEXT = (
     "one obligation per (CLI runner, input key), per write effect root, "
     "per temp acquisition and exit-set mode, per listing, per worker "
@@ -1037,6 +1041,12 @@ def _path_calls(cfg, rd, name):
     return unlinks, guards, writes
 
 
+STALE_ANCHORS = {
+    'validation.validate_h5ad:_validate_h5ad':
+    ('copy_h5_excluding_data', 'dst_path'),
+}
+
+
 def check_stale_output_removed(ctx, rule='R-FRESH/stale-output-removed'):
     """A function that removes the file at one of its paths *without
     having written it* (the removal is not reachable from any of its own
@@ -1058,20 +1068,37 @@ def check_stale_output_removed(ctx, rule='R-FRESH/stale-output-removed'):
                     c.func, ast.Attribute) and c.func.attr == 'unlink' \
                     and isinstance(c.func.value, ast.Name):
                 names.add(c.func.value.id)
+        # the validated copy of the query: clearing its location is part
+        # of what the function is for, judged even if the removal is gone
+        anchored = set()
+        if fi.qual in STALE_ANCHORS:
+            callee, kw = STALE_ANCHORS[fi.qual]
+            for c in ast.walk(fi.node):
+                if isinstance(c, ast.Call) and (
+                        getattr(c.func, 'id', None) == callee
+                        or getattr(c.func, 'attr', None) == callee):
+                    for k in c.keywords:
+                        if k.arg == kw and isinstance(k.value, ast.Name):
+                            anchored.add(k.value.id)
+            if not anchored:
+                raise AnalysisError(
+                    f'{fi.qual}: the call {callee}({kw}=...) that writes '
+                    'the output was not found')
+        names |= anchored
         if not names:
             continue
         cfg = cfg_of(fi)
         rd = rd_of(fi)
         for name in sorted(names):
             unlinks, guards, writes = _path_calls(cfg, rd, name)
-            if not unlinks or not writes:
+            if name not in anchored and (not unlinks or not writes):
                 continue
             ok_edge = lambda a, b, lab: b != cfg.exc_exit  # noqa: E731
             reach_w = set()
             for w in writes:
                 reach_w |= cfg.reachable(w, edge_ok=ok_edge) - {w}
             stale = {u for u in unlinks if u not in reach_w}
-            if not stale:
+            if not stale and name not in anchored:
                 continue       # write-then-remove: a probe, or clean-up
             # the guards that lead to a stale removal
             settle = set(writes) | stale
